@@ -76,11 +76,13 @@ def write_mod(song):
 def write_xm(song):
     chn = song['chn']
     orders = song['orders']
-    npat = len(song['patterns'])
+    npat = len(song['raw_patterns']) if 'raw_patterns' in song else len(song['patterns'])
     b = bytearray(b"Extended Module: " + song.get('name', 'gen').encode()[:20].ljust(20, b" ") + b"\x1a" + b"FastTracker v2.00   " + struct.pack("<H", 0x0104))
     b += struct.pack("<IHHHHHHHH", 276, len(orders), song.get('restart', 0), chn, npat, 1, 1, song.get('speed', 6), song.get('bpm', 125))
     b += bytes(orders) + bytes(256 - len(orders))
-    for pat in song['patterns']:
+    for (rows, declared, blob) in song.get('raw_patterns', ()):        # packed pattern data given as bytes (C19 pattern-codec leg)
+        b += struct.pack("<IBHH", 9, 0, rows, declared) + blob
+    for pat in ([] if 'raw_patterns' in song else song['patterns']):
         data = bytearray()
         for row in pat:
             for c in range(chn):
@@ -121,7 +123,7 @@ def write_s3m(song):
     orders = list(song['orders'])
     if len(orders) % 2:
         orders.append(0xff)
-    npat = len(song['patterns'])
+    npat = 1 if 'raw_pattern' in song else len(song['patterns'])
     smps = song.get('s3m_samples')
     if smps is None:
         smps = [dict(frames=len(SAMPLE), bits=8, stereo=False, left=[x if x < 128 else x - 256 for x in SAMPLE], right=None, loop=(0, len(SAMPLE)), vol=64, c2spd=8363, name="square")]
@@ -149,7 +151,9 @@ def write_s3m(song):
         spos[k] = pos; pos += len(sblobs[k]) + ((-len(sblobs[k])) % 16)
     pat_paras = []
     patdata = []
-    for pat in song['patterns']:
+    if 'raw_pattern' in song:
+        pat_paras.append(pos // 16)
+    for pat in ([] if 'raw_pattern' in song else song['patterns']):
         d = bytearray()
         for r in range(64):
             row = pat[r] if r < len(pat) else [None] * chn
@@ -191,6 +195,11 @@ def write_s3m(song):
     b += bytes((-len(b)) % 16)
     for blob in patdata:
         b += blob
+    if 'raw_pattern' in song:          # (declared length field, bytes): the file ends with this pattern's data (C19 pattern-codec leg)
+        declared, blob = song['raw_pattern']
+        assert len(b) == pat_paras[0] * 16
+        b = b[:pat_paras[0] * 16] + struct.pack("<H", declared) + blob
+        return bytes(b)
     for k in far:
         b += bytes(spos[k] - len(b)) + sblobs[k]
     return bytes(b)
@@ -199,9 +208,9 @@ def write_s3m(song):
 def write_it(song):
     chn = song['chn']
     orders = list(song['orders']) + [0xff]
-    pats = song['patterns']
+    pats = song['raw_patterns'] if 'raw_patterns' in song else song['patterns']
     b = bytearray(b"IMPM" + song.get('name', 'gen').encode()[:26].ljust(26, b"\0") + bytes([4, 16]))
-    b += struct.pack("<HHHHHHHH", len(orders), 0, 1, len(pats), 0x0214, 0x0200, 0x0009, 0)
+    b += struct.pack("<HHHHHHHH", len(orders), 0, 1, len(pats), 0x0214, 0x0200, 0x0009 | (0x10 if song.get('it_old_fx') else 0), 0)
     b += bytes([128, 48, song.get('speed', 6), song.get('bpm', 125), 128, 0]) + struct.pack("<HI", 0, 0) + bytes(4)
     b += bytes([32 if i < chn else 0xa0 for i in range(64)]) + bytes([64] * 64)
     b += bytes(orders)
@@ -217,7 +226,10 @@ def write_it(song):
     b += SAMPLE
     struct.pack_into("<I", b, smp_off + 72, data_off)
     pat_offs = []
-    for pat in pats:
+    for (rows, blob) in song.get('raw_patterns', ()):      # packed pattern data given as bytes (C19 pattern-codec leg)
+        pat_offs.append(len(b))
+        b += struct.pack("<HH", len(blob), rows) + bytes(4) + blob
+    for pat in ([] if 'raw_patterns' in song else pats):
         d = bytearray()
         for row in pat:
             for c in range(chn):
